@@ -212,7 +212,7 @@ def profile():
          "cc_after": 0.2, "cc_waiting": 0.35, "discipline": 0.3, "routing_objects": 0.6, "process_routing": 0.2, "self_loops": 0.4,
          "tracker": 0.4, "inf": 0.1, "baulking": 0.15, "system_capacity": 0.1, "prio_preempt": 0.15, "exact": 0.3}
     return S.Profile(ALLOWED, weights=w, numeric="grid", max_nodes=3, max_classes=2, plans=("max_time",), horizon=(4.0, 8.0), budget=1500, long_digits=0.15,
-                     excluded=common.EXCL["C15"] + ("reuse_stateful",))
+                     excluded=common.EXCL["C15"])
 
 
 # ---- process isolation: the same run in a fresh interpreter with and without other simulations before it ---------------------
